@@ -742,10 +742,8 @@ Section SafeFilename.
   Lemma starts_slash_false s : ~ In 47 s -> starts_slash s = false.
   Proof.
     destruct s as [|x s]; [reflexivity|]. intros H. cbn.
-    destruct x as [|p]; [reflexivity|].
-    destruct (N.eq_dec (Npos p) 47) as [E|E]; [exfalso; apply H; left; exact E|].
-    do 6 (destruct p as [p|p|]; try reflexivity). all: try (exfalso; apply E; reflexivity).
-    all: destruct p; reflexivity.
+    destruct (x =? 47) eqn:E; [|reflexivity].
+    apply N.eqb_eq in E. subst x. exfalso. apply H. now left.
   Qed.
 
   Lemma ends_with_char_app x s b : b <> [] -> ends_with_char x (s ++ b) = ends_with_char x b.
